@@ -70,7 +70,11 @@ def make_proxy(worker, sim, recipe, rank, iterations, collected):
                     worker.write_msg(("req", req.id))
                 elif kind == "waitsome":
                     ids = msg[1]
-                    res = simmpi.Request.Waitsome([reqs[i] for i in ids])
+                    if len(msg) > 2 and msg[2]:
+                        one = simmpi.Request.Waitany([reqs[i] for i in ids])
+                        res = None if one < 0 else [one]
+                    else:
+                        res = simmpi.Request.Waitsome([reqs[i] for i in ids])
                     data = {}
                     if res:
                         for i in res:
